@@ -146,6 +146,10 @@ pub fn main(args: &[String]) -> i32 {
     } else {
         args.iter().map(|a| a.parse().expect("signal number")).collect()
     };
+    // the parent has used the library before the children are forked (a harmless raise of SIGURG, whose default is to be
+    // ignored, and its emulation): whatever the library remembers per process must still be right in a forked child
+    let _ = signal_hook::low_level::raise(libc::SIGURG);
+    let _ = signal_hook::low_level::emulate_default_handler(libc::SIGURG);
     for &s in &sigs {
         let name = signal_hook::low_level::signal_name(s).unwrap_or("-");
         println!("{} name {}", s, name);
